@@ -5,3 +5,4 @@ CONSTANTS
   ChainCs = {0, 1, 2, 3, 4}
   Triples = TRUE
   TripleCs = {0, 2, 3}
+  DiaCs = {0, 1, 2, 3, 4}
